@@ -538,16 +538,49 @@ func DenseDataSet(rng *rand.Rand, graphs, size int, numeric bool) bq.Data {
 			}
 		}
 	}
+	// anchors outside the range of int64 nanoseconds since 1970, now and then
+	if rng.Intn(2) == 0 {
+		preds = append(preds, MustTemp("p", TFarFuture), MustTemp("q", TFarPast))
+		objs = append(objs, triple.NewPredicateObject(MustTemp("p", TFarPast)))
+	}
+	// single-kind columns for ordering: "n" only ever has int64 objects (the ends
+	// of the range included), "f" only float64 objects
+	var ints, floats []*triple.Object
+	if numeric {
+		for _, l := range VLits[:5] {
+			ints = append(ints, triple.NewLiteralObject(l))
+		}
+		for _, l := range VLits[5:8] {
+			floats = append(floats, triple.NewLiteralObject(l))
+		}
+		for _, l := range ExtremeLits {
+			if l.Type() == literal.Int64 {
+				ints = append(ints, triple.NewLiteralObject(l))
+			} else {
+				floats = append(floats, triple.NewLiteralObject(l))
+			}
+		}
+	}
 	d := bq.Data{}
 	for gi := 0; gi < graphs; gi++ {
 		seen := map[string]bool{}
 		var ts []*triple.Triple
 		n := size/2 + rng.Intn(size/2+1)
-		for tries := 0; len(ts) < n && tries < 30*n; tries++ {
-			t := MustTriple(ns[rng.Intn(len(ns))], preds[rng.Intn(len(preds))], objs[rng.Intn(len(objs))])
+		add := func(t *triple.Triple) {
 			if k := cv.Triple(t); !seen[k] {
 				seen[k] = true
 				ts = append(ts, t)
+			}
+		}
+		for tries := 0; len(ts) < n && tries < 30*n; tries++ {
+			add(MustTriple(ns[rng.Intn(len(ns))], preds[rng.Intn(len(preds))], objs[rng.Intn(len(objs))]))
+		}
+		if numeric {
+			for k := 2 + rng.Intn(5); k > 0; k-- {
+				add(MustTriple(ns[rng.Intn(len(ns))], MustImm("n"), ints[rng.Intn(len(ints))]))
+			}
+			for k := rng.Intn(4); k > 0; k-- {
+				add(MustTriple(ns[rng.Intn(len(ns))], MustImm("f"), floats[rng.Intn(len(floats))]))
 			}
 		}
 		d[GraphVars[gi]] = ts
